@@ -169,6 +169,47 @@ def direct_case(rng):
     return {'src': src, 'vars': [], 'objs': [], 'cfg': cfg}, exp
 
 
+def rebinding_case(rng):
+    """enable_data_attributes with one prefix bound to a language namespace in one place and to a foreign namespace in another
+    (siblings in either order, nested re-binding): data-<prefix>-<name> is a statement exactly where the prefix means a language"""
+    k = [0]
+
+    def leaf(lang):
+        k[0] += 1
+        v = 'V%d' % k[0]
+        if lang:
+            return '<p data-w-content="\'%s\'" data-role="r">old</p>' % v, '<p data-role="r">%s</p>' % v
+        return '<p data-w-content="\'%s\'" data-w-size="3">old</p>' % v, '<p data-w-content="\'%s\'" data-w-size="3">old</p>' % v
+
+    def block(depth, inherited):
+        # inherited: None (w unbound: data-w-* are ordinary attributes), True (language), False (foreign)
+        src, out = [], []
+        for _ in range(rng.randint(1, 3)):
+            r = rng.random()
+            if r < 0.45 or depth <= 0:
+                if inherited is None and rng.random() < 0.5:
+                    a, b = leaf(False)
+                else:
+                    a, b = leaf(bool(inherited))
+                src.append(a)
+                out.append(b)
+            else:
+                lang = rng.random() < 0.5
+                uri = rng.choice([TAL, TAL, I18N]) if lang else rng.choice([OTHER, 'urn:w'])
+                if lang and uri == I18N:
+                    # data-w-content under an i18n binding would be an unknown i18n attribute: use only ordinary children there
+                    inner_s, inner_o = block(depth - 1, None) if False else ('<i data-role="x">t</i>', '<i data-role="x">t</i>')
+                    src.append('<section xmlns:w="%s">%s</section>' % (uri, inner_s))
+                    out.append('<section>%s</section>' % inner_o)
+                    continue
+                inner_s, inner_o = block(depth - 1, lang)
+                src.append('<section xmlns:w="%s">%s</section>' % (uri, inner_s))
+                out.append(('<section>%s</section>' if lang else '<section xmlns:w="%s">%%s</section>' % uri) % inner_o)
+        return ''.join(src), ''.join(out)
+    a, b = block(rng.choice([1, 2, 3]), None)
+    return {'src': '<div>%s</div>' % a, 'vars': [], 'objs': [], 'cfg': {'enable_data_attributes': True}}, '<div>%s</div>' % b
+
+
 OTHER = 'http://example.org/other'
 
 
@@ -270,6 +311,8 @@ def correspondence(ctx):
             cases.append(c)
     for _ in range(ctx.budget(300, 8000)):
         cases.append(direct_case(ctx.rng)[0])
+    for _ in range(ctx.budget(200, 6000)):
+        cases.append(rebinding_case(ctx.rng)[0])
     for _ in range(ctx.budget(400, 10000)):
         a, b = scope_tree(ctx.rng, None, ctx.rng.choice([1, 2, 3]))
         cases.append({'src': '<html>%s</html>' % a, 'vars': [], 'objs': [], 'cfg': {'restricted_namespace': False}})
@@ -358,6 +401,16 @@ def oracle(ctx):
         if r.get('out') != exp:
             ctx.violation('start tag: language attributes/declarations must vanish, every other attribute must be preserved verbatim',
                           {'src': case['src'], 'cfg': case['cfg']}, expected=exp, actual=strip(r))
+    # data-<prefix>-* under re-bound prefixes
+    rs_ = [rebinding_case(ctx.rng) for _ in range(ctx.budget(500, 20000))]
+    rr = pipeline.impl_many([d[0] for d in rs_])
+    for (case, exp), r in zip(rs_, rr):
+        ctx.count('evaluations')
+        nt += 1 if case['src'].count('xmlns:w') >= 2 else 0
+        hist['data-rebinding'] = hist.get('data-rebinding', 0) + 1
+        if r.get('out') != exp:
+            ctx.violation('enable_data_attributes: data-<prefix>-<name> is a statement exactly where <prefix> is bound to a language namespace; '
+                          'elsewhere it is an ordinary attribute and stays', {'src': case['src'], 'cfg': case['cfg']}, expected=exp, actual=strip(r))
     # scoping of declarations
     sc = [scope_tree(ctx.rng, None, ctx.rng.choice([1, 2, 3])) for _ in range(ctx.budget(1500, 50000))]
     rsc = pipeline.impl_many([{'src': '<html>%s</html>' % a, 'vars': [], 'objs': [], 'cfg': {'restricted_namespace': False}} for a, b in sc])
@@ -371,6 +424,11 @@ def oracle(ctx):
     ctx.cov['spelling_histogram'] = hist
     ctx.counters['nontrivial'] = nt
     ctx.sample({'base': meta[0][2], 'respelled': meta[0][3], 'spelling': meta[0][0]})
+    # D-18c: a default-namespace declaration of a language namespace on an element with a foreign prefix
+    r = pipeline.run_impl({'src': D18C, 'vars': [], 'objs': []})
+    if r.get('out') != D18C_EXPECT:
+        ctx.violation('a declaration of a template-language namespace reaches the output', {'src': D18C}, expected=D18C_EXPECT, actual=strip(r),
+                      finding='D-18c' if r.get('out') == D18C.replace('<block content="\'a\'"/>', 'a') else None)
     # D-18b
     r = pipeline.run_impl(dict(D18B, vars=[], objs=[]))
     if r.get('out') != D18B_EXPECT:
@@ -378,6 +436,8 @@ def oracle(ctx):
                       finding='D-18b' if r.get('out') == '<div><br></div><p>1</p>' else None)
 
 
+D18C = '<x:div xmlns:x="urn:x" xmlns="%s"><block content="\'a\'"/></x:div>' % TAL
+D18C_EXPECT = '<x:div xmlns:x="urn:x">a</x:div>'
 D18B = {'src': '<div xmlns:t="%s"><br></div><p t:content="1">x</p>' % TAL, 'cfg': {'restricted_namespace': False}}
 D18B_EXPECT = '<div><br></div><p t:content="1">x</p>'
 
